@@ -116,8 +116,10 @@ def find_guard(repo: Repo, summ: Summary, reject: Term, loops: Sequence[Term] = 
 
 
 def require_guard(ck: Check, rule: str, summ: Summary, spec: Spec, reject: str, what: str,
-                  context: Sequence[str] = (), loops: Optional[Sequence[Term]] = None) -> Optional[Event]:
-    """Obligation: `reject` => rejection. Records HOLDS / VIOLATED / UNKNOWN on ck."""
+                  context: Sequence[str] = (), loops: Optional[Sequence[Term]] = None, exact: bool = False) -> Optional[Event]:
+    """Obligation: `reject` => rejection. Records HOLDS / VIOLATED / UNKNOWN on ck. With `exact`, also rejection (at that raise) =>
+    `reject`: for bounds the property states exactly ("at most 30 s ahead" is accepted at 30 s), a guard that refuses more is as wrong
+    as one that refuses less."""
     fi = summ.fi
     rj = spec.term(reject)
     ctx = [spec.term(c) for c in context]
@@ -125,6 +127,13 @@ def require_guard(ck: Check, rule: str, summ: Summary, spec: Spec, reject: str, 
     res = find_guard(ck.repo, summ, rj, lp, ctx)
     construct = "%s: reject if %s%s" % (fi.qualname.replace("skepticoin.", ""), show(rj),
                                          (" ∀ " + "; ".join(show(d) for d in lp)) if lp else "")
+    if res.ok and exact:
+        rest = residual(res.event, ctx)     # type: ignore[arg-type]
+        code = mk_and([c.term for c in rest])
+        if not implies(code, rj):
+            ck.violated(rule, construct + " — and only then", "%s — the raise at this guard also fires when %s holds without %s: inputs on the boundary "
+                        "that the property accepts are refused" % (what, show(code)[:120], show(rj)[:120]), res.event.loc)  # type: ignore
+            return None
     if res.ok:
         ck.ok(rule, construct, what, res.event.loc)  # type: ignore
         return res.event
